@@ -148,7 +148,12 @@ func verifySignature(resolver KeyResolver, signatureVerifier signatureVerifier,
 		return fmt.Errorf("kid %s is not DID", kid)
 	}
 
-	pubKey, err := resolver.Resolve(strings.Split(kid, "#")[0], strings.Split(kid, "#")[1])
+	kidParts := strings.Split(kid, "#")
+	if len(kidParts) < 2 { //nolint:gomnd
+		return fmt.Errorf("kid %s has no key fragment", kid)
+	}
+
+	pubKey, err := resolver.Resolve(kidParts[0], kidParts[1])
 	if err != nil {
 		return err
 	}
